@@ -361,7 +361,7 @@ def run_check(pid, tier, seed, assumptions):
     scripts.sort(key=lambda s: json.dumps(s, sort_keys=True))
     rng.shuffle(scripts)
     scripts.sort(key=weight, reverse=True)
-    cap = 1500 if thorough else 140
+    cap = 1200 if thorough else 140
     head = scripts[:cap * 2]
     rng.shuffle(head)
     conv = [convert_script(s, rng) for s in head[:cap]]
@@ -369,7 +369,7 @@ def run_check(pid, tier, seed, assumptions):
     _write(spath, conv)
 
     # ---- the real code
-    nrand = 4000 if thorough else 330
+    nrand = 3000 if thorough else 330
     batches = [("tlc", ["--scripts", spath]), ("random", ["--random", nrand, "--profile", prof])]
     nviol, total_events, total_runs, panics, known_hits = 0, 0, 0, 0, {}
     stats, good_traces = {}, []
